@@ -1614,3 +1614,54 @@ pub fn e3() -> BoxedStrategy<Value> {
         })
         .boxed()
 }
+
+/// E4: one `unpin` whose collection loop goes round several times, because the deferred functions
+/// it runs flush or overflow again; every round moves the epoch on and re-pins the thread. Thread X
+/// prepares bags sealed at consecutive epochs, each holding a function that uses the API when it
+/// runs (flush / 70 / 200 deferrals under a guard of its own); thread Y enters a critical section
+/// at a generated point in the middle of X's long unpin and stays in it.
+pub fn e4() -> BoxedStrategy<Value> {
+    (
+        0u8..20,
+        proptest::collection::vec((prop_oneof![3 => Just(1u8), 2 => Just(4u8), 2 => Just(5u8), 1 => Just(2u8), 1 => Just(0u8)], any::<u8>(), 0u8..3), 3..7),
+        (1u32..6, 0u32..40, any::<bool>(), 0u8..3),
+    )
+        .prop_map(|(align, rounds, (nth, jitter, y_defers, y_rounds_after))| {
+            let d = |k: EK, a: u8, b: u8| EOp { k, a, b };
+            let (x_t, y_t) = (0u8, 1u8);
+            let mut x = Vec::new();
+            let mut sched = Vec::new();
+            let mut y = vec![d(EK::Round, 0, 0)];
+            sched.push(Directive { thread: y_t, until: Until::OpIndex(1) });
+            let n = rounds.len();
+            for (i, (mode, class, extra)) in rounds.iter().enumerate() {
+                x.push(d(EK::Pin, 0, 0));
+                for j in 0..*extra {
+                    x.push(d(EK::Defer, 0, class.wrapping_add(j)));
+                }
+                x.push(d(EK::DeferNested, *mode, *class));
+                x.push(d(EK::Flush, 0, 0));
+                if i + 1 == n {
+                    // the last unpin is the long one: park X in the middle of it
+                    sched.push(Directive { thread: x_t, until: Until::OpIndex(x.len() as u32) });
+                    sched.push(Directive { thread: x_t, until: Until::Event { kind: circ::verif::ev::BAG_SEALED, nth } });
+                    if jitter > 0 {
+                        sched.push(Directive { thread: x_t, until: Until::Steps(jitter) });
+                    }
+                }
+                x.push(d(EK::DropGuard, 0, 0));
+            }
+            y.push(d(EK::Pin, 0, 0));
+            if y_defers {
+                y.push(d(EK::Defer, 0, 7));
+            }
+            sched.push(Directive { thread: y_t, until: Until::OpIndex(y.len() as u32) });
+            sched.push(Directive { thread: x_t, until: Until::End });
+            y.push(d(EK::DropGuard, 0, 0));
+            for _ in 0..y_rounds_after {
+                y.push(d(EK::Round, 0, 0));
+            }
+            serde_json::to_value(EbrCase { align, threads: vec![x, y], sched, private: false }).unwrap()
+        })
+        .boxed()
+}
